@@ -56,6 +56,7 @@ fn main() {
         ("c03", "replay") => c03::replay(rest),
         ("c04", "record") => c04::record(rest),
         ("c14", "record") => c14::record(rest),
+        ("c14", "probe") => c14::probe(rest),
         ("session", "replay") => session::replay(rest),
         (p, m) => util::tool_error(&format!("unknown command {p} {m}")),
     }
